@@ -173,6 +173,75 @@ type want struct {
 	c        *Case
 }
 
+// forkVerdictCase: the real chain is replayed up to header Index-1, then - with the checks off - a
+// few heavy unmined headers are hung a little below the tip so that THAT branch becomes the most
+// work chain; with the checks on again the next real header is offered.  It extends a branch that
+// is not the most work branch and has to be judged by the samples of its own branch.
+var realSamples = map[string][]struct {
+	t uint32
+	w *big.Int
+}{}
+
+func forkVerdictCase(c *Case) {
+	f := loadFixture(c.Fixture)
+	ctx := coqfmt.QuietContext()
+	if realSamples[c.Fixture] == nil {
+		repo := headers.NewRepository(headers.DefaultConfig(), storage.NewMockStorage())
+		work, _ := new(big.Int).SetString(f.work, 16)
+		repo.DisableDifficulty()
+		out := make([]struct {
+			t uint32
+			w *big.Int
+		}, len(f.hdrs))
+		for i, h := range f.hdrs {
+			if i == 0 {
+				repo.MockLatest(ctx, h, f.height, work)
+			} else if err := repo.ProcessHeader(ctx, h); err != nil {
+				panic(err)
+			}
+			out[i].t, out[i].w = h.Timestamp, new(big.Int).Set(repo.AccumulatedWork())
+		}
+		realSamples[c.Fixture] = out
+	}
+	smps := realSamples[c.Fixture]
+	repo := headers.NewRepository(headers.DefaultConfig(), storage.NewMockStorage())
+	work, _ := new(big.Int).SetString(f.work, 16)
+	repo.DisableDifficulty()
+	for i := 0; i < c.Index; i++ {
+		if i == 0 {
+			repo.MockLatest(ctx, f.hdrs[0], f.height, work)
+		} else if err := repo.ProcessHeader(ctx, f.hdrs[i]); err != nil {
+			panic(err)
+		}
+	}
+	prev := *f.hdrs[c.ForkAt].BlockHash()
+	t := f.hdrs[c.ForkAt].Timestamp
+	for k := 0; k < 4; k++ {
+		t += 600
+		x := hdr(prev, t, 0x17100000, uint32(c.Seed)+uint32(k))
+		if err := repo.ProcessHeader(ctx, x); err != nil {
+			panic(err)
+		}
+		prev = *x.BlockHash()
+	}
+	last := repo.LastHash()
+	forkLeads := last.Equal(&prev)
+	repo.EnableDifficulty()
+	h := f.hdrs[c.Index]
+	obs := "None"
+	func() {
+		defer func() { recover() }()
+		obs = "(Some " + classify(repo.ProcessHeader(ctx, h)) + ")"
+	}()
+	if !forkLeads {
+		obs = "None" // the scenario did not come about: force a look
+	}
+	i := c.Index
+	at := func(j int) string { return fmt.Sprintf("(%d, %s)", smps[j].t, smps[j].w.String()) }
+	c.coq = fmt.Sprintf("PVerdict true (mkPowIn %s %d %d%%Z true false (Some (%s, %s, %s, %s, %s, %s))) %s", h.BlockHash().Value().String(), h.Bits,
+		f.height+i, at(i-147), at(i-146), at(i-145), at(i-3), at(i-2), at(i-1), obs)
+}
+
 func grind(h *wire.BlockHeader) {
 	for i := 0; i < 1000 && !h.WorkIsValid(); i++ {
 		h.Nonce++
@@ -420,6 +489,17 @@ func main() {
 				i := 1 + r.Intn(len(f.hdrs)-1)
 				add(Case{Kind: "verdict", Fixture: fx, Index: i, Mutation: mutations[k%len(mutations)], Seed: r.U64()})
 			}
+			// real headers that extend a branch which is not the most work branch
+			for k := 0; k < 6+*n/40; k++ {
+				i := 200 + r.Intn(len(f.hdrs)-200)
+				if fx == "556000" && i < 775 {
+					i += 775 // the algorithm applies from 556767 on
+				}
+				if i >= len(f.hdrs) {
+					i = len(f.hdrs) - 1
+				}
+				add(Case{Kind: "verdict_fork", Fixture: fx, Index: i, ForkAt: i - 1 - (3 + r.Intn(4)), Mutation: "real_on_lighter_branch", Seed: r.U64()})
+			}
 		}
 	}
 
@@ -437,6 +517,8 @@ func main() {
 			targetCase(c)
 		case "verdict":
 			byFixture[c.Fixture] = append(byFixture[c.Fixture], want{c.Index, c.Mutation, c.Seed, c})
+		case "verdict_fork":
+			forkVerdictCase(c)
 		}
 	}
 	for fx, ws := range byFixture {
